@@ -59,6 +59,12 @@ func c05BuildTable(run *common.Run, srv *drive.Srv, ti int, single bool) (string
 		if len(muts) == 0 {
 			muts = append(muts, model.Mut{Kind: model.SetCell, Fam: "f1", Qual: "a", TS: 1000, Val: "v"})
 		}
+		if k == c05Keys[0] {
+			// one long column: 40 versions at 0, 1000, ..., 39000 (the boundary timestamps of the leaf list fall on cells)
+			for v := 0; v < 40; v++ {
+				muts = append(muts, model.Mut{Kind: model.SetCell, Fam: muts[0].Fam, Qual: "long", TS: int64(v) * 1000, Val: common.Pick(r, c05Vals)})
+			}
+		}
 		if st := drive.MutateRow(srv.Data, name, k, muts); !st.OK() {
 			run.Violation("setup", ti, "set-up write failed: "+st.String(), nil)
 			return "", nil, gen.FilterCtx{}, false
@@ -236,7 +242,7 @@ func c05Boundary(ctx gen.FilterCtx, rows []model.Row) []*model.Filter {
 			}
 		}
 	}
-	tsb := []int64{0, 1, 999, 1000, 1001, 2000, 3000, 4000, 2500}
+	tsb := []int64{0, 1, 999, 1000, 1001, 2000, 3000, 4000, 2500, 20000, 39000, 40000}
 	for _, s := range tsb {
 		for _, e := range tsb {
 			add(&model.Filter{Kind: "tsrange", TStart: s, TEnd: e})
@@ -325,7 +331,7 @@ func c05Basis(ctx gen.FilterCtx) []*model.Filter {
 }
 
 func runC05(run *common.Run) {
-	run.Rule = "case = one ReadRows(filter) over a 5-row multi-column/multi-version table (binary and newline-containing keys, qualifiers and values; rows with 2-3 families, and one table whose rows have a single family with 3-5 columns; half of the rows got further columns through ReadModifyWriteRow) on one engine, compared row by row with an independent filter evaluator applied to the unfiltered rows as served. Parts: (leaf) every leaf filter over its boundary arguments [complete list]; (pair) ALL chains and interleaves of ordered pairs and (cond) ALL conditions of ordered triples incl. nil branches over a 24-leaf basis [complete]; (merge) ALL chain(interleave(X,Y), cut) over the basis and six positional cuts on the single-family table [complete]; (tree) PRNG trees to depth 4. Non-trivial = the filter changed at least one row without emptying the whole result, or was rejected; distinct by (filter, table, engine)."
+	run.Rule = "case = one ReadRows(filter) over a 5-row multi-column/multi-version table (binary and newline-containing keys, qualifiers and values; rows with 2-3 families, and one table whose rows have a single family with 3-5 columns; half of the rows got further columns through ReadModifyWriteRow; one row has a column with 40 versions) on one engine, compared row by row with an independent filter evaluator applied to the unfiltered rows as served. Parts: (leaf) every leaf filter over its boundary arguments [complete list]; (pair) ALL chains and interleaves of ordered pairs and (cond) ALL conditions of ordered triples incl. nil branches over a 24-leaf basis [complete]; (merge) ALL chain(interleave(X,Y), cut) over the basis and six positional cuts on the single-family table [complete]; (tree) PRNG trees to depth 4. Non-trivial = the filter changed at least one row without emptying the whole result, or was rejected; distinct by (filter, table, engine)."
 	run.Assumptions = []string{"evaluator written from the Bigtable filter documentation, own byte-regex matcher for a restricted RE2 subset", "an invalid argument must be rejected only if the documented semantics apply it to at least one cell / non-empty row; otherwise either outcome is accepted", "cells-per-row limit/offset cutting into a multi-family row that came out of an interleave is not decided (family order unspecified)", "a zero cells-per-row/column limit may be rejected or return nothing"}
 	j := common.NewJournal("C05")
 	ntables := run.N(2, 4)
